@@ -1185,8 +1185,8 @@ def entryCover : List EntryCover := [
   ⟨"_distance.dt", [``C10_dist_transform_in_bounds, ``C10_line_address, ``C10_alloc_dt_scratch_defined], [``C11_dt_guards_imply_pre, ``C11_dt_safe], "safe", "scratch arrays z, v never read before written: C10_alloc_dt_scratch_defined"⟩,
   ⟨"_histogram.histogram", [``C10_histogram_in_bounds, ``C10_histogram_needs_unsigned], [``C11_histogram_safe], "safe", ""⟩,
   ⟨"_histogram.otsu", [``C10_otsu_in_bounds], [``C11_otsu_safe], "safe", ""⟩,
-  ⟨"_interpolate.spline_filter1d", [``C10_spline_filter1d_in_bounds, ``C10_line_address], [``C11_interpolate_order_guards_imply_pre], "pre", "`init_poles`, `pole[2]` not modelled"⟩,
-  ⟨"_interpolate.zoom_shift", [``C10_zoom_shift_in_bounds, ``C10_zoom_shift_tables_in_bounds, ``C10_alloc_pixel_loop_defined], [``C11_zoom_shift_guards_imply_pre, ``C11_zoom_shift_safe], "safe", "float->int conversions abstracted; `spline_coefficients` result vector not modelled"⟩,
+  ⟨"_interpolate.spline_filter1d", [``C10_spline_filter1d_in_bounds, ``C10_line_address, ``C10_interpolate_small_tables_in_bounds], [``C11_interpolate_order_guards_imply_pre], "pre", ""⟩,
+  ⟨"_interpolate.zoom_shift", [``C10_zoom_shift_in_bounds, ``C10_zoom_shift_tables_in_bounds, ``C10_interpolate_small_tables_in_bounds, ``C10_alloc_pixel_loop_defined], [``C11_zoom_shift_guards_imply_pre, ``C11_zoom_shift_safe], "safe", "float->int conversions abstracted"⟩,
   ⟨"_labeled.label", [``C10_filter_table_ok, ``C10_filter_iterator_refines, ``C10_label_union_find_in_bounds, ``C10_find_in_bounds], [``C11_label_guards_imply_pre, ``C11_label_safe, ``C11_label_union_find_safe], "safe", "the renumbering pass (`std::map`) is a pixel loop over data[i]"⟩,
   ⟨"_labeled.relabel", [``C10_relabel_in_bounds], [], "bounds", "std::map trusted"⟩,
   ⟨"_labeled.is_same_labeling", [``C10_pair_scan_in_bounds], [``C11_is_same_labeling_safe_partial], "partial", "the size test is the wrapper's early `return False`, not an extracted guard"⟩,
